@@ -37,8 +37,15 @@ def sha(obj) -> str:
     return hashlib.sha1(canon(obj).encode()).hexdigest()
 
 
-class Crash(Exception):
-    """An exception escaped from edzed code where the driver expected none."""
+class Hang(BaseException):
+    """A single execution exceeded the watchdog limit (normal executions take milliseconds)."""
+
+
+WATCHDOG_S = float(os.environ.get('VERIF_WATCHDOG', '20'))
+
+
+def _on_alarm(signum, frame):
+    raise Hang()
 
 
 def _exec_one(args):
@@ -48,8 +55,18 @@ def _exec_one(args):
     logging.disable(logging.CRITICAL)
     import warnings
     warnings.simplefilter('ignore')
+    import signal
+    signal.signal(signal.SIGALRM, _on_alarm)
+    signal.setitimer(signal.ITIMER_REAL, WATCHDOG_S)
     try:
         return ('ok', drv.execute(stim))
+    except Hang:
+        import asyncio
+        try:
+            asyncio.set_event_loop(None)
+        except Exception:
+            pass
+        return ('crash', 'hang', f'execution did not finish within {WATCHDOG_S} s (busy loop?)')
     except Exception as err:        # classify: raised inside edzed or inside the harness?
         tb = err.__traceback__
         last = None
@@ -62,15 +79,32 @@ def _exec_one(args):
             where = f'{type(err).__name__}@{last.tb_frame.f_code.co_name}'
             return ('crash', where, text)
         return ('machinery', text)
+    finally:
+        signal.setitimer(signal.ITIMER_REAL, 0)
+
+
+def _exec_indexed(args):
+    i, modname, stim = args
+    return i, _exec_one((modname, stim))
 
 
 def execute_all(modname: str, stimuli: list, procs: int = 16) -> list:
     if procs <= 1 or len(stimuli) < 8:
         return [_exec_one((modname, s)) for s in stimuli]
     ctx = mp.get_context('fork')
+    results = [('skipped',)] * len(stimuli)
+    hangs = 0
     with ctx.Pool(min(procs, os.cpu_count() or 1)) as pool:
-        return pool.map(_exec_one, [(modname, s) for s in stimuli],
-                        chunksize=max(1, len(stimuli) // (procs * 8)))
+        it = pool.imap_unordered(_exec_indexed, [(i, modname, s) for i, s in enumerate(stimuli)],
+                                 chunksize=4)
+        for i, r in it:
+            results[i] = r
+            if r[0] == 'crash' and r[1] == 'hang':
+                hangs += 1
+                if hangs >= 3:          # enough evidence; do not wait for every other hang
+                    pool.terminate()
+                    break
+    return results
 
 
 def load_findings() -> list:
@@ -173,6 +207,8 @@ def check(prop: str, tier: str, seed: int, replay: str | None = None) -> int:
             tstim.append(stim)
         elif r[0] == 'crash':
             crashes.append((stim, r[1], r[2]))
+        elif r[0] == 'skipped':
+            continue
         else:
             raise MachineryError('driver failure:\n' + r[1])
     ev['coverage']['evaluations'] = len(stimuli)
